@@ -13,6 +13,8 @@ package compactindexsized
 // Oracle signatures (stable): lost-entry, wrong-value, header-mismatch, nondeterministic-seal, order-dependent,
 // unexpected-build-error, duplicate-key-accepted, unsupported-value-size-panic, unsupported-value-size-corrupt,
 // long-key-lost, builder-panic, reader-panic, lookup-error.
+// Every verified file is also queried through the readers of c04r_test.go (signatures eof-with-full-read-not-served,
+// section-reader-not-served, prefetch-not-served, read-error-masked, transient-read-error-poisons-reader).
 
 import (
 	"bytes"
@@ -218,6 +220,13 @@ func vc04Verify(rep *vh.Report, file []byte, items, vs uint, meta []vc04Meta, kv
 			rep.Fail("reader-panic", fmt.Sprintf("key %s: %s", vc04Short(x.K), m), vc04Describe(items, vs, meta, kvs, note))
 		}
 	}
+	// the same keys through the other conforming readers (c04r_test.go): EOF together with a full read at the end of
+	// the data, a section reader at an offset, Prefetch(true), one transient read error at every position of the trace
+	rkvs := make([]vc04rKV, len(kvs))
+	for i, x := range kvs {
+		rkvs[i] = vc04rKV{x.K, x.V}
+	}
+	vc04rCheckReaders(rep, vc04Seed(), file, rkvs, vc04raOpen, vc04Describe(items, vs, meta, kvs, note))
 	return db
 }
 
